@@ -8,9 +8,10 @@ CFG = dict(
                "in the value the controller reports decided for that very message (valid quorum certificate or the instance's own decision, controller "
                "identifier), at the height of the running duty's instance, while the duty is running and its instance object undecided, after the value "
                "decoded and PASSED the duty's value check; partial-signature messages and messages for other validators/roles never sign; consensus "
-               "messages for other heights, finished or absent duties, invalid certificates never sign. The clause 'at most once per decided object' is "
-               "REFUTED for the code as it stands (Lean witness + reproduced on the real runner: known finding) and proved under the side condition that "
-               "the controller still holds the runner's instance object. All seven runner roles; QBFT controller decided path and its 2-slot instance "
+               "messages for other heights, finished or absent duties, invalid certificates never sign. The clause 'at most once per decided object' is PROVED IN FULL "
+               "for the current code (fix c50569811: prevDecided also holds once the duty took a decided value): over every input sequence no (decision "
+               "height, object) is signed twice; the pre-fix behaviour is kept as an `Old` definition whose refutation is a regression lemma, and its "
+               "witness (instance evicted from the 2-slot container, certificate re-delivered) is replayed on the real runner on every run. All seven runner roles; QBFT controller decided path and its 2-slot instance "
                "container modelled, the instance's internal protocol is an oracle input. The model is tied to the code on every run by regenerated "
                "call-site facts (sign call sites, guard orders, container capacity) and by running model and REAL Validator/runners/controllers on the "
                "same real message traffic, comparing every sign event, broadcast, submission and the runner+controller state after every message.",
@@ -18,7 +19,7 @@ CFG = dict(
                "with the real functions: ConsensusData.Decode, the role's ProposedValueCheckF, ValidateDecided, IsDecidedMsg, real BLS share verification; "
                "'object contained in the value' = independent extraction of the duty objects' signing roots; mocks of beacon node, network, key manager), "
                "SSZ codecs. Containment is abstracted to root ids; the QBFT instance protocol (C01/C02/C06) is an oracle.",
-    technique="Lean 4 proof (per-step window theorem for all states, trace lifting by induction, invariant for the at-most-once side condition, refutation by a "
+    technique="Lean 4 proof (per-step window theorem for all states, trace lifting by induction, invariant for the at-most-once side condition, global invariant over controller container + duty state for at-most-once, regression refutation of the pre-fix code by a "
               "decided witness) + regenerated call-site facts + differential run against the real Validator with real peer traffic + implementation-side "
               "oracle on the recording key manager",
     lean=["Ssv.Props.C03"],
